@@ -64,7 +64,9 @@ TEXTS = ["abc", "hello world", "a,b", 'say "hi"', "line1\nline2", "cr\rhere", "c
          # characters a decoder or a text layer may treat specially: the byte order mark (as the first character of a cell, and inside), line and paragraph separators
          "\ufeffbom first", "in\ufeffside", "\ufeff", "ls\u2028here", "ps\u2029here", "nel\u0085here", "vt\x0bff\x0c"]
 NUMS = ["0", "1", "-1", "42", "007", "+5", "3.14", "-0.5", ".5", "5.", "1e3", "1E-3", "-2.5e+10", "1,234", "1,234,567.89", "12,3", "1_0", "١٢", "۱۲", "  7", "7  ", "123456789012345",
-        "0.000123456789012345", "1e15", "-1e-15", "9.99999999999999e14", "1e-290", "00", "-0"]
+        "0.000123456789012345", "1e15", "-1e-15", "9.99999999999999e14", "1e-290", "00", "-0",
+        # magnitudes far from 1: every decimal exponent a double can have is a number a CSV may hold
+        "6e33", "5.2e33", "9e300", "6e40", "-7.5e35", "1e40", "1.5e100", "9.99e289", "1e23", "3e25", "1e-40", "6e-33", "2.5e-300", "123456789012345e20"]
 
 
 def rand_cell(rng):
